@@ -1,4 +1,5 @@
 CONSTANTS P = 43  A = 0  B = 7  Gx = 2  Gy = 12  N = 31
+          SecLens <- LensQ
           Stage = "secmut"
           SecPfx = {2, 3}  SecXs <- FieldEdge  SecYs = {}  SecLongYs = {} DerPos <- PosNone  DerExt <- One0  DerExtLen = 0
 SPECIFICATION Spec
